@@ -46,4 +46,15 @@ CHECKS = {
                 "only in the correspondence run",
         "technique": "Lean 4 proof (invariant by induction over operation histories) + regenerated tie lemmas + differential correspondence",
     },
+    "C09": {
+        "text": "Lean 4 theorem print_parse: for every type of the grammar (arbitrary nesting, any identifier/template names) "
+                "the combinator semantics run on the grammar regenerated from signature.go returns exactly that type for its "
+                "printed signature, within the stack depth Parse allows (explicit fuel bound); printing is injective; the "
+                "grammar value is tied to init() by rfl, callbacks and post-checks by regenerated assertion lists; random / "
+                "near-miss / white-space / random-byte inputs are compared with the real parser incl. IDL name and Go type",
+        "note": "trusts the Lean kernel, the transcription of goparsec's combinators and of the two regular expressions, the "
+                "grammar translator; rejection of all other inputs and absence of callback panics are compared on samples, "
+                "not yet proved for all inputs; Type() panics on two classes of accepted signatures (known findings)",
+        "technique": "Lean 4 proof (mutual structural induction over the signature AST on a deep-embedded PEG interpreter) + grammar regenerated and tied by rfl + differential correspondence",
+    },
 }
